@@ -70,6 +70,24 @@ def mkSub (A : Raw) (r : Nat) : Sub :=
     start := A.ruleStart.getD r 0
     stop := stopOf A r }
 
+/-- a parser rule's own automaton, over the alphabet "token types, EOF = 0, rule reference = 1000 + rule
+index": a RULE edge consumes the symbol of the rule it calls and continues at its follow state -/
+def edgeLabP (A : Raw) (e : AEdge) : Lab :=
+  if e.ttype = 3 then .set [(1000 + e.a2, 1000 + e.a2)]
+  else if e.ttype = 5 then (if e.a3 = 0 then .set [(e.a1, e.a1)] else .set [(0, 0)])
+  else if e.ttype = 2 then .set [(e.a1, e.a2)]
+  else if e.ttype = 7 then .set (A.sets.getD e.a1 [])
+  else if e.ttype = 8 then .nset (A.sets.getD e.a1 [])
+  else if e.ttype = 9 then .nset []
+  else .eps
+
+def mkSubP (A : Raw) (r : Nat) : Sub :=
+  { edges := A.edges.filterMap fun e =>
+      if e.srule = r then some ⟨e.src, edgeLabP A e, e.trg⟩ else none
+    stops := [stopOf A r]
+    start := A.ruleStart.getD r 0
+    stop := stopOf A r }
+
 /-- a configuration: a state and the stack of states to return to -/
 abbrev Cfg := Nat × List Nat
 
@@ -120,6 +138,10 @@ def startSet (M : Sub) : List Cfg := closure M [(M.start, [])]
 /-- **language of rule `r`**: the words that lead from its start state to its stop state -/
 def ruleAccepts (A : Raw) (r : Nat) (w : List Nat) : Bool :=
   acceptsFrom (mkSub A r) (startSet (mkSub A r)) w
+
+/-- **language of the body of parser rule `r`** over tokens and rule references -/
+def ruleBodyAccepts (A : Raw) (r : Nat) (w : List Nat) : Bool :=
+  acceptsFrom (mkSubP A r) (startSet (mkSubP A r)) w
 
 /-! ### regular expressions as languages -/
 
